@@ -111,7 +111,15 @@ def make_world(g, tag):
             return 'invalid JSON must fail the test and write nothing, got %r w=%r' % ([(k, x[:30]) for k, x in line.events], line.writes)
         return None
     # (an empty json.RawMessage marshals to `null`: valid)
-    w.add('%s 1 90 %s %s' % (kind, r.choice(['s', 'b', 'vraw'] if bad else ['s', 'b']), hx(bad)), ('invalid-json-fails', exp_bad))
+    if r.random() < 0.35:
+        # not JSON, but the offending token sits at a path a matcher would replace: validation comes first, the
+        # matcher must not get the chance to turn the text into a valid document
+        bad, bpath = r.choice([('{"id":1,"createdAt":2024-01-01T10:00:00Z}', 'createdAt'), ('{"n":NaN,"k":1}', 'n'), ('{"n":007,"k":1}', 'n'),
+                               ('{"s":"a\tb","k":1}', 's'), ('{"k":1,"v":.5}', 'v'), ("{\"k\":1,\"q\":'x'}", 'q')])
+        mt = r.choice([docs.any_matcher([bpath]), docs.custom_matcher(bpath, True, '"ok"'), docs.any_matcher([bpath], None, False)])
+        w.add('%s 1 90 %s %s %s' % (kind, r.choice(['s', 'b']), hx(bad), mt), ('invalid-json-fails-before-matchers', exp_bad))
+    else:
+        w.add('%s 1 90 %s %s' % (kind, r.choice(['s', 'b', 'vraw'] if bad else ['s', 'b']), hx(bad)), ('invalid-json-fails', exp_bad))
     w.add('end 90')
 
     def oracle(line, raw, ww):
